@@ -3,7 +3,8 @@
 # independent statements, changed messages, an extra early return, split conditions) is applied to a scratch copy of
 # /repo; the check of the property named in the file name must stay quiet (exit 0, no VIOLATION line).
 # usage: selftest/harmless.sh [pattern]
-cd /verif || exit 2
+V=$(cd "$(dirname "$0")/.." && pwd)
+cd "$V" || exit 2
 pat="${1:-}"
 fail=0
 for p in selftest/harmless/*${pat}*.patch; do
@@ -11,8 +12,8 @@ for p in selftest/harmless/*${pat}*.patch; do
   prop=$(basename "$p" | cut -d- -f1)
   d=$(mktemp -d "${TMPDIR:-/tmp}/gabi-harm-XXXXXX")
   cp -r /repo/. "$d"/
-  if ! git -C "$d" apply "/verif/$p" 2>/dev/null; then
-    echo "SKIP $p (does not apply to the current tree)"; rm -rf "$d"; continue
+  if ! git -C "$d" apply "$V/$p" 2>/dev/null; then
+    echo "SKIP $p (does not apply to the current tree)"; fail=1; rm -rf "$d"; continue
   fi
   o=$(mktemp -d "${TMPDIR:-/tmp}/gabi-harm-out-XXXXXX")
   out=$(VERIF_REPO="$d" VERIF_OUT="$o" ./check "$prop" 2>&1); rc=$?
